@@ -129,6 +129,54 @@ struct Engine
         }
     }
 
+    // "Every operand remains valid": whatever state the failed operation left the vector in, it can be observed, used as the
+    // source of a copy, given more room and appended to (the operations that are valid on any vector).
+    void exercise(Vec& v, const char* who)
+    {
+        const Vec& cv = v;
+        const size_t n = cv.size();
+        if (n == 0)
+        {
+            if (!(cv.begin() == cv.end())) viol("C17,C18", "invalid_after_failure", fmt("%s: begin() != end() although size() == 0", who));
+            if (cv.data_begin() != cv.data_end())
+                viol("C17,C18", "invalid_after_failure", fmt("%s: size() == 0 but data_begin() %p != data_end() %p", who, static_cast<const void*>(cv.data_begin()), static_cast<const void*>(cv.data_end())));
+        }
+        if (out().viol_in_case) return;
+        std::vector<MElem> held;
+        size_t bytes = 0;
+        for (size_t i = 0; i < n; ++i)
+        {
+            held.push_back(G::read(cv[i]));
+            bytes += Mon::payload(held.back());
+        }
+        if (out().viol_in_case) return;
+        if constexpr (Cfg::ALL_COPYABLE)
+        {
+            Vec copy(cv);
+            bool same = std::as_const(copy).size() == n;
+            for (size_t i = 0; same && i < n; ++i) same = elem_match(held[i], G::read(std::as_const(copy)[i]));
+            if (!same) viol("C17,C09", "invalid_after_failure", fmt("%s: a copy of the operand does not hold what the operand holds", who));
+        }
+        if (out().viol_in_case) return;
+        const std::vector<size_t> fixed = Mon::fixed_sizes(cv);
+        const MElem extra = G::make_model_elem(next_id++, fixed, std::vector<size_t>(Cfg::N_VARYING, 2));
+        const size_t n2 = std::max(cv.capacity(), n) + 1;
+        if constexpr (Cfg::N_VARYING != 0)
+            v.reserve(n2, bytes + Mon::payload(extra));
+        else
+            v.reserve(n2);
+        if (cv.capacity() != n2 || cv.size() != n)
+        {
+            viol("C17,C10", "invalid_after_failure", fmt("%s: reserve(%zu) gave capacity() %zu, size() %zu (was %zu)", who, n2, cv.capacity(), cv.size(), n));
+            return;
+        }
+        G::emplace_back(v, extra);
+        bool same = cv.size() == n + 1 && elem_match(extra, G::read(cv[n]));
+        for (size_t i = 0; same && i < n; ++i) same = elem_match(held[i], G::read(cv[i]));
+        if (!same) viol("C17,C01", "invalid_after_failure", fmt("%s: after reserve + emplace_back the operand does not hold its elements plus the new one", who));
+        ledger().check_all_canaries();
+    }
+
     // returns number of allocator calls made by the operation (fault-free run) or -1 when the fault was injected
     // fail_at: 0 = fault free; i >= 1: the i-th allocation of the operation throws
     int64_t run(int op, uint64_t seed, int fail_at, size_t max_cap, size_t max_span)
@@ -290,6 +338,14 @@ struct Engine
                     if (!elem_match(me1, G::read(std::as_const(*e1)))) viol("C17,C12", "source_changed", "source element changed by a failed copy assignment");
                     break;
                 case FO_ELEM_MOVE_ASSIGN: break;
+            }
+            // ---- ... and usable (every other pre-state; the remaining ones go straight to the re-assignment below, which has to
+            // cope with exactly the state the failure left behind)
+            if (!out().viol_in_case && (op == FO_COPY_ASSIGN || op == FO_MOVE_ASSIGN) && ((seed >> 5) & 1))
+            {
+                set_ctx(case_no, fail_at, FOP_NAME[op], cur_pre.c_str(), "C17", fmt("fail_at=%d,exercise", fail_at).c_str());
+                exercise(*dst.v, "target after the failed assignment");
+                if (!out().viol_in_case && op == FO_MOVE_ASSIGN) exercise(*src.v, "source after the failed move assignment");
             }
             // ---- operands must still be assignable
             if (!out().viol_in_case && (op == FO_COPY_ASSIGN || op == FO_MOVE_ASSIGN))
